@@ -57,16 +57,20 @@ finally:
 confirmed = all(res.get(k) for k in ["applies", "builds", "suite_passes_with_change", "demo_fails_with_change", "demo_passes_without_change"])
 res["confirmed"] = confirmed
 if confirmed:
-    # run the registered check against /repo with the change applied, and undo it straight afterwards
-    rc, o = sh(["git", "-C", "/repo", "apply", patch])
-    assert rc == 0, o
-    try:
-        rc, o = sh(["./check", prop], cwd="/verif", env=dict(os.environ, VERIF_TIER=tier))
-    finally:
-        sh(["git", "-C", "/repo", "checkout", "--", "."])
-    res["check_exit"] = rc
-    res["check_output"] = [l for l in o.splitlines() if l.startswith(("VIOLATION", "KNOWN", "ERROR", prop))][:6]
-    res["detected"] = rc == 1 and any(l.startswith("VIOLATION property=" + prop) for l in o.splitlines())
+    if os.environ.get("SEED_NO_CHECK"):
+        # confirmation only (can run in parallel); tools/seed_recheck.py runs the check against /repo afterwards
+        res["check_exit"], res["check_output"], res["detected"] = None, ["(not run yet: see tools/seed_recheck.py)"], None
+    else:
+        # run the registered check against /repo with the change applied, and undo it straight afterwards
+        rc, o = sh(["git", "-C", "/repo", "apply", patch])
+        assert rc == 0, o
+        try:
+            rc, o = sh(["./check", prop], cwd="/verif", env=dict(os.environ, VERIF_TIER=tier))
+        finally:
+            sh(["git", "-C", "/repo", "checkout", "--", "."])
+        res["check_exit"] = rc
+        res["check_output"] = [l for l in o.splitlines() if l.startswith(("VIOLATION", "KNOWN", "ERROR", prop))][:6]
+        res["detected"] = rc == 1 and any(l.startswith("VIOLATION property=" + prop) for l in o.splitlines())
     out = os.path.join("/verif/seeded", seed)
     os.makedirs(out, exist_ok=True)
     shutil.copyfile(patch, os.path.join(out, "patch.diff"))
